@@ -140,7 +140,7 @@ def build_c(job, res):
            "-I", os.path.join(REPO, "lib/c"), "-I", d, "-o", so,
            os.path.join(d, "verif_harness.c"),
            job.get("rt_obj") or os.path.join(REPO, "lib/c/bitproto.c")] + cfiles
-    p = subprocess.run(cmd, capture_output=True, text=True, timeout=120)
+    p = subprocess.run(cmd, capture_output=True, text=True, timeout=900)
     if p.returncode != 0:
         raise RuntimeError("cc failed: " + p.stderr[-1500:])
     lib = ctypes.CDLL(so)
@@ -169,7 +169,7 @@ def do_job(job):
     lib = None
     nleaves = 0
     try:
-        signal.alarm(200)
+        signal.alarm(1000)
         lib, nleaves = build_c(job, res)
     except BaseException as e:  # noqa
         res["c_error"] = f"{type(e).__name__}: {e}"[:2000]
